@@ -11,6 +11,7 @@ Decided on the output grammar (Engine A) at the function that iterates module.ty
 Not decided: the derive macros themselves (library)."""
 import itertools
 import engine_ogp as E
+import engine_skel as K
 from conc import Eval, V, Diverge, Unbound
 from rules.c06 import struct_template
 
@@ -76,25 +77,22 @@ def run(rep):
     optP = optP[0]
     elem = ('elem', st[2], st[1])
     hs_ = E.holes(tmpl)
-    # derive accumulator
-    der = None
-    for it in tmpl[2]:
-        if it[0] == 'rep' and len(it[1]) == 1 and it[1][0][0] == 'hole' and it[1][0][2][0] == 'acc':
-            der = it[1][0][2][1]
-    if der is None:
-        rep.bad('C09.anchor', 'derive-list', where, 'the derive list is not a straight-line accumulator (`push` under `if`s); cannot extract the guards', undecided=True)
-        return
-    entries = ogp.accs[der]['entries']
-    # repr(C) and assertions: holes whose alternatives are `# [ repr ( C ) ]` / contain `assert !`
-    repr_term = assert_term = None
-    for name, t in hs_.items():
-        ts = E.find_templates(t, lambda x: True)
-        if any(E.tmpl_text(x).replace(' ', '') == '#[repr(C)]' for x in ts):
-            repr_term = t
-        if any('assert !' in E.tmpl_text(x) for x in ts):
-            assert_term = t
-    rep.check(repr_term is not None, 'C09.anchor', 'repr-hole', where, 'no hole producing #[repr(C)]', ok_detail='found')
-    rep.check(assert_term is not None, 'C09.anchor', 'assert-hole', where, 'no hole producing the layout assertions', ok_detail='found')
+    # the struct item is instantiated per truth-table row (names, members and sizes stay symbolic) and read as text: the derive list is whatever is
+    # printed inside `#[derive(..)]`, #[repr(C)] and the assertions are present or not - whichever template / helper / early return produces them
+    import re as _re
+    item_term = st[3]
+    entries = []        # (condition, value) of every conditional contribution inside the item, for the atom analysis below
+
+    def collect_entries(x):
+        if x[0] == 'acc':
+            for en in ogp.accs[x[1]]['entries']:
+                entries.append({'cond': en['cond'], 'val': en['val']})
+                E.walk(en['val'], collect_entries)
+        if x[0] == 'alt':
+            for c, v in x[1]:
+                entries.append({'cond': c, 'val': v})
+    E.walk(item_term, collect_entries)
+    repr_term = assert_term = True
     # atoms
     inner = ('f', ('tf', elem, 1), 'inner')
     diverges = [e for e in ogp.effects.get(q, []) if e['kind'] == 'diverge' and e['what'] in ('panic', 'todo', 'unreachable', 'unimplemented', 'assert')]
@@ -141,13 +139,20 @@ def run(rep):
             for e in relevant:
                 if ev.truth(e['cond']):
                     panics = True
-            got = []
-            for en in entries:
-                if ev.truth(en['cond']):
-                    got.append(E.tmpl_text(en['val']) if en['val'][0] == 'tmpl' else str(en['val']))
-            evl = Eval(leaf, lenient=True)
-            has_repr = 'repr' in evl.ev(repr_term) if repr_term is not None else None
-            has_assert = 'assert !' in evl.ev(assert_term) if assert_term is not None else None
+            sk = K.SkelEval(ogp, None, {}, '', None, extra_leaf=leaf)
+            sk.markers = False
+            sk.lenient = True
+            sk.elems[st[2]] = V('model::TypeEntry')     # the type under consideration: everything the guards read of it is an atom above
+            sk.pos[st[2]] = 0
+            got, has_repr, has_assert = [], None, None
+            if not panics:
+                text = ' '.join(str(sk.tokens(sk.ev(item_term))).split())
+                dm = _re.findall(r'# \[ derive \( (.*?) \) \] pub struct', text)
+                if len(dm) != 1 or '#' in dm[0]:
+                    raise Unbound(('derive list', text[:200]))
+                got = [x.strip() for x in dm[0].split(' , ') if x.strip()]
+                has_repr = '# [ repr ( C ) ] # [ derive (' in text
+                has_assert = 'assert !' in text
         except Unbound as u:
             rep.bad('C09.guards', key, where, f'cannot evaluate the derive guards at row {row}: {u}', undecided=True)
             continue
